@@ -25,6 +25,31 @@ CLAIMS = {
             'edge set = support, sum(pdist^2 * matrix) = sum over jumps of d^2, occupancy sum; the no-site folding of Transitions.matrix() is proved as a refutation (known finding D6).',
             'Trusted: Coq kernel/vm_compute, harness (exact rational minimum-image distances for the diffusivity formula), pymatgen containers. Closed under the global context.',
             'DESIGN.md §5 C05'),
+    'C12': ('Coq theorems (loop = specification under sortedness; sort is a sorted permutation) about a model of the pairwise scan with early exit '
+            '+ checked correspondence on synthetic jump tables with long-transit jumps and through Jumps.collective()',
+            'Proof: the repaired scan reports exactly the pairs satisfying the definition (different atoms, window, cut-off), each unordered pair once, '
+            'solo + collective = total; the pre-repair loop is proved sound but incomplete (defect D9, fixed).',
+            'Trusted: Coq kernel/vm_compute, harness (exact rational site distances, cut-off guard band), pandas stable sort. Closed under the global context.',
+            'DESIGN.md §5 C12'),
+    'C16': ('Coq theorems about a cache/loader state machine parameterised by the pickle codec (round trip + prefix failure as hypotheses), '
+            'generated key_separates theorems (translator over the three loaders) + fault enumeration of every prefix length of real cache files',
+            'Proof (partial): load after a crash at any byte, load from any consistent file system, arbitrary fault/recover cycles and '
+            'leaves-a-complete-cache are theorems given the codec hypotheses; the cache-name coverage theorem is regenerated from the source on every run. '
+            'pickle / file system / SHA-1 are assumed and validated by enumeration.',
+            'Trusted: Coq kernel/vm_compute, harness, translator unit cachekey, pickle prefix-failure and round-trip (enumerated, not proved), SHA-1 collision freedom; '
+            'from_gromacs only through the generated theorem.', 'DESIGN.md §5 C16'),
+    'C19': ('Coq theorems generic in the boundary list (partition, re-basing, sub-log simulation for jumps) + binary64 model of np.linspace '
+            '+ checked correspondence for every n_parts',
+            'Proof: state arrays concatenate, events are partitioned (Permutation) and re-based into [0, width), per-part counts <= total, '
+            'jumps of the parts are an order-preserving sublist of the jumps of the whole (sum <= total), trajectory parts contiguous/ordered, equal parts equal.',
+            'Trusted: Coq kernel/vm_compute incl. primitive floats for the linspace model, harness, pandas mask filtering order. Closed under the global context.',
+            'DESIGN.md §5 C19'),
+    'C20': ('Coq theorems (invariants by induction over operation traces) about a state machine of lru_cache keyed on weak references '
+            '+ checked correspondence against the real decorator (value, hit/miss, liveness per operation) and real analysis objects',
+            'Proof (partial): transparency, no leak between objects (every hit was computed for the same uid), cache bound, key uniqueness, not-pinned when values do not '
+            'refer to their owner, pinned refuted otherwise (known finding D10). CPython weakref/lru_cache/refcount semantics are modelled, not verified.',
+            'Trusted: Coq kernel/vm_compute, harness, the CPython semantics stated in Model/C20.v (validated by the tie incl. measured address reuse).',
+            'DESIGN.md §5 C20'),
 }
 PENDING_REASON = 'not yet claimed in this revision: model/tie under construction (see DESIGN.md §11 build order)'
 
